@@ -80,6 +80,17 @@ func (g *gen) cfg(i int) Cfg {
 				a.Mods = append(a.Mods[:at:at], append([]Mod{rp}, a.Mods[at:]...)...)
 			}
 		}
+		if n == 3 && len(a.Mods) < 4 && g.rng.Chance(1, 4) {
+			// the reverse proxy through which a stream is open when the configuration ends, and
+			// closing that stream fails (needs a TCP listener to open the stream through)
+			for _, ad := range a.Listen {
+				if ad < NAddr {
+					at := g.rng.Intn(len(a.Mods) + 1)
+					a.Mods = append(a.Mods[:at:at], append([]Mod{{5, StreamKey}}, a.Mods[at:]...)...)
+					break
+				}
+			}
+		}
 		c.Apps = append(c.Apps, a)
 	}
 	if g.rng.Chance(g.prof.Logs, 100) {
@@ -399,6 +410,24 @@ func (g *gen) enumerated() [][]Op {
 	c.Apps[2].Listen = []int{2, 6, 2}
 	add(c, Env{})
 	add(next(), Env{Post: true})
+	// a reverse proxy with an upgraded stream open at the moment its configuration ends, closing the
+	// stream fails (Cleanup reports an error): ended by a replacement, by Stop, three times in a row,
+	// surviving a late-rejected load, and in a configuration that is itself rejected late
+	{
+		st := func(tag int) Cfg {
+			return Cfg{Apps: []App{{Name: 3, Tag: tag, Listen: []int{0}, Mods: []Mod{{0, 0}, {5, StreamKey}, {0, 4}}}}}
+		}
+		plain := Cfg{Apps: []App{{Name: 3, Tag: 9, Listen: []int{1}, Mods: []Mod{{0, StreamKey}}}}}
+		f := Env{Force: true}
+		out = append(out, []Op{{Kind: 'L', Cfg: st(1), Env: f}, {Kind: 'L', Cfg: cloneCfg(plain), Env: f}, {Kind: 'S'}})
+		out = append(out, []Op{{Kind: 'L', Cfg: st(1), Env: f}, {Kind: 'S'}, {Kind: 'L', Cfg: cloneCfg(plain), Env: f}, {Kind: 'S'}})
+		out = append(out, []Op{{Kind: 'L', Cfg: st(1), Env: f}, {Kind: 'S'}, {Kind: 'L', Cfg: st(2), Env: f}, {Kind: 'S'}, {Kind: 'L', Cfg: st(3), Env: f}, {Kind: 'S'}})
+		out = append(out, []Op{{Kind: 'L', Cfg: st(1), Env: f}, {Kind: 'L', Cfg: st(2), Env: f}, {Kind: 'L', Cfg: st(3), Env: f}, {Kind: 'S'}})
+		bad := st(2)
+		bad.Apps[0].Listen = []int{2, 1}
+		out = append(out, []Op{{Kind: 'L', Cfg: st(1), Env: f}, {Kind: 'L', Cfg: bad, Env: Env{Force: true, Blocked: []int{1}}}, {Kind: 'L', Cfg: cloneCfg(plain), Env: f}, {Kind: 'S'}})
+		out = append(out, []Op{{Kind: 'L', Cfg: st(1), Env: f}, {Kind: 'L', Cfg: st(2), Env: Env{Force: true, Post: true}}, {Kind: 'S'}})
+	}
 	// the unix socket under its three spellings (no bits, |0600, |0660): a running config serves it
 	// under spelling v; a config naming it under spelling w is rejected AFTER it has bound it (a
 	// later listener cannot bind / certificate management cannot start / post-start step fails);
